@@ -96,8 +96,31 @@ def compare(res, case, rec, extra):
         rec.count('runs_with_skipped_tasks')
 
 
+def run_wide(spec, rec):
+    '''More simultaneously ready tasks than any queue bound.'''
+    seed = spec['seed']
+    nwide = 2 if spec['tier'] == 'quick' else 12
+    for widx in range(nwide):
+        rng = core.rng_for(seed, PROP, 'wide', spec['shard'], widx)
+        case = H.gen_wide(rng, rng.choice([1, 2]))
+        case['outcomes'] = H.gen_outcomes(rng, case, KINDS, nfail=2)
+        res = H.run_controlled(dict(case), C.RandomWalk(rng),
+                               max_steps=400000)
+        rec.count('evaluations')
+        rec.count('wide_runs')
+        if res.outcome == 'lost':
+            rec.count('engine_lost_control')
+            continue
+        rec.count('controlled_runs')
+        compare(res, dict(case), rec, {'engine': 'controlled',
+                                       'choices': res.choices[:50],
+                                       'wide': [seed, spec['shard'], widx]})
+
+
 def run_random(spec, rec):
     tier, seed = spec['tier'], spec['seed']
+    if spec['shard'] in (0, 1):
+        run_wide(spec, rec)
     for idx in range(spec['lo'], spec['hi']):
         rng = core.rng_for(seed, PROP, 'case', idx)
         case = gen_case(rng, tier)
